@@ -323,7 +323,7 @@ def run_check(chk, replay=None):
             print("  what: %s  (signature %s, %d occurrences)" % (v.what, sig, agg.viol_counts[sig]))
         rc = 1
     inconc = list(agg.inconclusive)
-    if rc == 0:
+    if rc == 0 and replay is None:
         for k, m in chk.min_required.items():
             if agg.stats.get(k, 0) < m:
                 inconc.append("too few observations: %s=%d < %d" % (k, agg.stats.get(k, 0), m))
